@@ -173,6 +173,45 @@ def pools_validation(oc, traces, extra_cov):
         'drift': drift, 'tlc_states': r['states'], 'wall_s': r['wall_s'], 'canary_rejected': bool(can) and not can_ok, 'drift_samples': samples}
 
 
+def flush_validation(oc, traces, extra_cov):
+    """executions in which flush() is called, validated as behaviours of the design model QueueFlush (spec/Trace_QueueFlushD.tla);
+    the model's own `early` / "forgotten" on a real execution is a violation of C12"""
+    from .. import qflush
+    from ..common import MachineryError
+    proj = [p_ for p_ in (qflush.project(tr) for tr in traces) if p_]
+    if not proj:
+        return
+    full = {tr['id']: tr for tr in traces}
+    can = None
+    for p_ in proj:         # binding canary: a message fetched before its time with the flush() call taken out of the log
+        if any(e['t'] == 'get' and e['m'] not in e['due'] for e in p_['ev']) and sum(1 for e in p_['ev'] if e['t'] == 'flush_call') == 1:
+            can = copy.deepcopy(p_)
+            can['id'] = max(x['id'] for x in proj) + 1
+            can['ev'] = [e for e in can['ev'] if e['t'] not in ('flush_call', 'flush_ret')]
+            break
+    r = qflush.validate(proj + ([can] if can else []))
+    ver = r['verdicts']
+    can_ok = bool(can) and ver.pop(can['id'])[0] == 'OK'
+    drift, samples, mviol = {}, [], 0
+    for tid, (v, d) in sorted(ver.items()):
+        cls = full[tid].get('cls', 'any')
+        if v == 'DRIFT':
+            drift[cls] = drift.get(cls, 0) + 1
+            if len(samples) < 3:
+                samples.append({'trace_id': tid, 'cls': cls, 'verdict': v, 'detail': d})
+        elif v == 'MODEL_VIOL':
+            mviol += 1
+            for c in d:
+                oc.violation(c, cls + '-model', {'trace_id': tid, 'clauses': d, 'cfg': full[tid].get('cfg'),
+                                                 'by': 'QueueFlush flags it on a real execution (Trace_QueueFlushD)'}, full[tid])
+    if can_ok and not drift and not mviol and not oc.violations:
+        raise MachineryError('binding canary accepted by Trace_QueueFlushD: a fetch before its time without the flush() call')
+    extra_cov['design_model_validation_flush'] = {
+        'module': 'Trace_QueueFlushD (EXTENDS QueueFlush)', 'traces': len(proj), 'accepted': sum(1 for v in ver.values() if v[0] == 'OK'),
+        'drift': drift, 'model_flagged': mviol, 'tlc_states': r['states'], 'wall_s': r['wall_s'],
+        'canary_rejected': bool(can) and not can_ok, 'drift_samples': samples}
+
+
 def model_validation(prop, extra_cov):
     """post-processing hook: the same real executions, validated as behaviours of the design model QueueCore itself
     (spec/Trace_QueueCore.tla): drift is reported, what the model's own `viol` flags on a real execution is a violation"""
@@ -181,6 +220,8 @@ def model_validation(prop, extra_cov):
 
     def post(oc, traces, summaries):
         pools_validation(oc, traces, extra_cov)
+        if prop == 'C12':
+            flush_validation(oc, traces, extra_cov)
         proj, skipped = [], 0
         for tr in traces:
             p_ = qcore.project(tr)
